@@ -2,6 +2,7 @@
 package checks
 
 import (
+	"math/big"
 	"encoding/json"
 	"sort"
 
@@ -29,3 +30,5 @@ func IDs() []string {
 	sort.Strings(ids)
 	return ids
 }
+
+func newBig(n int64) *big.Int { return big.NewInt(n) }
